@@ -60,6 +60,7 @@ def run(idx: ProgramIndex, rep: Report, tier: str):
     strategy_blocks(idx, rep)
     likelihood_copies(idx, rep)
     fantasy_noise_forwarded(idx, rep)
+    symmetric_expansion(idx, rep, fns)
     rep.rule("C04-6", "the caches carried into the fantasy strategy do not depend on detach_test_caches (branches differ by .detach() only)")
     from .c03 import detach_neutral
     detach_neutral(idx, rep, rule="C04-6", only_functions={"get_fantasy_strategy", "get_fantasy_model"}, floor=1)
@@ -685,3 +686,57 @@ def fantasy_noise_forwarded(idx: ProgramIndex, rep: Report):
                     "the noise keywords are forwarded" if fw else
                     "`%s` evaluates the fantasy likelihood for the new points without **%s: a FixedNoiseGaussianLikelihood then compares the m new points with its n + m stored noises and returns a zero operator (the update raises / uses no noise)" % (" ".join(src(c).split())[:70], kwn or "kwargs"), {})
     rep.floor("C04-9", "evaluations of the fantasy likelihood inside get_fantasy_strategy", n, 2)
+
+
+# ---- C04-10 --------------------------------------------------------------------------------------------------------
+def symmetric_expansion(idx: ProgramIndex, rep: Report, fns):
+    """old ++ new along the data axis needs both operands in one batch shape.  Either side may be the one that lacks batch dimensions (a
+    batch model receiving an observation shared by the batch; a fantasy model receiving a shared observation; shared inputs with
+    per-fantasy noise), so a concatenation whose operands are brought to a common batch shape must expand *both* of them to a shape that
+    both determine.  Expanding one side to the other's shape (under a test of their ranks) covers one direction only."""
+    rep.rule("C04-10", "old ++ new concatenations expand both operands to a common batch shape (no one-sided expand of the old part to the new part's shape)")
+    from ..symbolic import inline, walk_paths
+    n = 0
+    for fi in fns:
+        seen = {}
+        for path, seq in walk_paths(fi):
+            for st, env in seq:
+                if not isinstance(st, ast.stmt):
+                    continue
+                for c in (x for x in ast.walk(st) if isinstance(x, ast.Call) and chain(x.func) == "torch.cat" and x.args and isinstance(x.args[0], (ast.List, ast.Tuple)) and len(x.args[0].elts) == 2):
+                    ops = [inline(e, env) for e in c.args[0].elts]
+                    # operands that are comprehension variables over (zipped) lists: judge the element expression of the list they run over
+                    comp = next((x for x in ast.walk(st) if isinstance(x, (ast.ListComp, ast.GeneratorExp)) and any(y is c for y in ast.walk(x.elt))), None)
+                    if comp is not None:
+                        bind = {}
+                        for g in comp.generators:
+                            its = [g.iter]
+                            tg = [g.target]
+                            if isinstance(g.iter, ast.Call) and (chain(g.iter.func) or "").split(".")[-1] in ("zip", "length_safe_zip") and isinstance(g.target, ast.Tuple):
+                                its, tg = list(g.iter.args), list(g.target.elts)
+                            for t_, i_ in zip(tg, its):
+                                if isinstance(t_, ast.Name):
+                                    src_list = inline(i_, env)
+                                    if isinstance(src_list, (ast.ListComp, ast.GeneratorExp)):
+                                        bind[t_.id] = src_list.elt
+                        ops = [bind.get(o.id, o) if isinstance(o, ast.Name) else o for o in ops]
+                    exp = [[m for m in ast.walk(o) if isinstance(m, ast.Call) and isinstance(m.func, ast.Attribute) and m.func.attr in ("expand", "expand_as", "repeat")] for o in ops]
+                    key = c.lineno
+                    rec = seen.setdefault(key, {"paths": 0, "one_sided": [], "both": 0, "none": 0})
+                    rec["paths"] += 1
+                    if bool(exp[0]) != bool(exp[1]):
+                        which = 0 if exp[0] else 1
+                        rec["one_sided"].append("on a path only the %s operand is expanded (`%s`)" % ("first" if which == 0 else "second", " ".join(src(exp[which][0]).split())[:70]))
+                    elif exp[0]:
+                        rec["both"] += 1
+                    else:
+                        rec["none"] += 1
+        for line, rec in sorted(seen.items()):
+            if not rec["one_sided"] and not rec["both"]:
+                continue  # no batch alignment attempted at this site: nothing to judge here
+            n += 1
+            ok = not rec["one_sided"]
+            rep.add("C04-10", "%s:%s[torch.cat old ++ new]" % (fi.module.name, fi.qualname), "%s:%d" % (fi.module.relpath, line), ok,
+                    "both operands are expanded to a common batch shape on every path" if ok else
+                    "; ".join(sorted(set(rec["one_sided"]))) + ": the other operand is assumed to have the larger batch shape already - a batch model receiving a shared observation (or a fantasy model receiving one) raises", {})
+    rep.floor("C04-10", "batch-aligned old ++ new concatenations", n, 1)
